@@ -408,6 +408,13 @@ func GenPlan(t *rapid.T, o Opts) Plan {
 		} else {
 			d.Amount = fixedAmount(t, fmt.Sprintf("due%d_a", i), c, true)
 		}
+		// an instalment agreed in another currency, with the rate to it
+		if !o.NoForeign && rapid.IntRange(0, 5).Draw(t, fmt.Sprintf("due%d_cur", i)) == 0 {
+			if fc := rapid.SampledFrom(docCurrencies).Draw(t, fmt.Sprintf("due%d_fc", i)); fc != cur {
+				d.Currency = fc
+				p.Rates = mergeRates(p.Rates, []Rate{{From: cur, To: fc, Amount: decimal(t, fmt.Sprintf("due%d_xr", i), 1, 2, false)}})
+			}
+		}
 		p.DueDates = append(p.DueDates, d)
 	}
 	p.Stale = rapid.IntRange(0, 5).Draw(t, "stale") == 0
